@@ -90,7 +90,7 @@ package p9
 //@ refcount fidRef.refs [C05,C15,C16]
 //@ reflink fidRef.parent [C05,C15]
 //@ reftable connState.fids [C05,C15]
-//@ ownfield fidRef.file [C05,C15]
+//@ ownfield fidRef.file [C05]
 
 //@ inline (*fidRef).hasParent, (*fidRef).maybeParent, (*fidRef).IncRef, CanOpen, (OpenFlags).Mode
 
